@@ -66,6 +66,8 @@ func newRollingSetup(w *World, ro RollingOpts) *Setup {
 		tp.OwnUpdated = true
 	}
 	s := &Setup{W: w, Cfg: cfg, Opts: opts, TP: tp, HealthyStatus: healthyStatus}
+	s.OddObsGen = []string{"", "", "", "", "string", "fraction"}[t.Pick(6, "obsgen")]
+	w.Cfg["observedGeneration"] = map[string]string{"": "integer", "string": "string", "fraction": "fraction"}[s.OddObsGen]
 	mustCreate(w.Store, ResCompositeCtl, "", cfg.Object(), "setup")
 	s.Progs = Programs{"cc": &Program{Sync: tp.SyncResponse, Finalize: tp.FinalizeResponse}}
 	w.HookProgram = s.Progs.Answer
@@ -317,8 +319,15 @@ func c07Oracle(w *World, s *Setup) *Violation {
 			}
 			// I2: the gate — every child already on the latest revision was healthy in some view
 			for _, key := range rs.order {
-				if !onLatestBefore(key) {
+				// on the latest revision: recorded there before this sync, or handed to it by
+				// this sync without needing a change - a child no revision claimed yet (just
+				// scaled up) or one whose content already is the latest desired state
+				joined := onLatestAfter(key) && key != movedReal[0] && (!claimedBefore(key) || !mayNeedChange(key))
+				if !onLatestBefore(key) && !joined {
 					continue
+				}
+				if joined && !onLatestBefore(key) {
+					w.Probe("c07:gate-includes-child-joined-in-this-sync")
 				}
 				ok := false
 				for _, ver := range rs.observedVersions(w, s, key) {
